@@ -49,7 +49,11 @@ func isMasterFault(k string) bool {
 // badBytes returns a packet body (without the 0x00 marker) that fails the
 // validity gate, derived from a real event.
 func badBytes(real []byte, sub int) []byte {
-	switch sub % 6 {
+	switch sub % 8 {
+	case 6: // over-long by exactly a checksum's worth
+		return append(append([]byte{}, real...), 1, 2, 3, 4)
+	case 7: // over-long by one byte
+		return append(append([]byte{}, real...), 0)
 	case 0: // truncated in the body
 		return append([]byte{}, real[:len(real)-1]...)
 	case 1: // truncated inside the header
